@@ -176,7 +176,6 @@ OPEN_DEFECTS = {
     "D15": ("coarse fragments are written with the fragment's own name for every node: {#A=[#B][$][#C]}", ["C08"]),
     "D16": ("element masses count a hydrogen per open descriptor; labels ending in a digit are read as orders in the tables", ["C17"]),
     "D17": ("the RDKit bridge re-perceives aromaticity and rewrites pentavalent N; UFF fails on order-0 bonds", ["C18"]),
-    "D19": ("vespr_refined_layout raises for molecules with cis/trans and is not rescaled to default_bond: {[#A]}.{#A=F/C=C/F}", ["C19"]),
     "D18": ("a dangling ring index inside an all-atom fragment is accepted; a lone node without fragment resolves to nothing", ["C20"]),
 }
 
